@@ -50,6 +50,30 @@ def check_binning_copies(ctx, rule, m):
         ctx.check(okg and fresh, rule, f"{c.name}.__getitem__:fresh-copy", "only `_bins` of a freshly constructed copy is replaced",
                   f"{c.name}.__getitem__ patches {[U(w.stmt)[:50] for w in ws]} on an object that is not a fresh copy", gi.where)
 
+        # every slice path indexes the (n, 2) pair array with the caller's own index object - the same numpy semantics
+        # (negative / open bounds) the histogram applies to its contents - and nothing re-derives start / stop by hand
+        if c is BB:
+            ix = [q for q in gi.params() if q != "self"][0]
+            bad_paths, n_slice = [], 0
+            for path in function_paths(gi.node):
+                if end_kind(path) != "return":
+                    continue
+                cs = [(U(s_[1]), s_[2]) for s_ in path if s_[0] == "cond"]
+                ret = path[-1][2].value
+                if (f"isinstance({ix}, slice)", True) in cs:
+                    n_slice += 1
+                    assigned = [U(s_[1].value) for s_ in path if s_[0] == "stmt" and isinstance(s_[1], ast.Assign)
+                                and U(s_[1].targets[0]) == f"{U(ret)}._bins"]
+                    if not (isinstance(ret, ast.Name) and assigned and assigned[-1] in (f"{U(ret)}.bins[{ix}]", f"self.bins[{ix}]")):
+                        bad_paths.append(f"returns `{U(ret)[:60]}` under {[c_ for c_, v_ in cs[1:]]}")
+                elif (f"isinstance({ix}, slice)", False) in cs:
+                    if U(ret) != f"self.bins[{ix}]":
+                        bad_paths.append(f"integer index returns `{U(ret)[:60]}`")
+            ctx.check(n_slice >= 1 and not bad_paths, rule, "BinningBase.__getitem__:index-applied-to-pairs",
+                      f"{n_slice} slice path(s): `_bins = <copy>.bins[{ix}]`; integer: self.bins[{ix}]",
+                      "; ".join(bad_paths) + " - a sliced binning must select exactly the bins numpy selects for the contents", gi.where)
+
+
 def check_pretty_factory(ctx, rule, m):
     """pretty_binning: width from the requested range (else the data extent) / bin_count; delegates coverage to
     fixed_width_binning with the caller's data and range; integer_binning: half-integer grid."""
